@@ -320,6 +320,11 @@ func c05(w *core.World, r *core.Report) {
 					if cm.Op == token.LEQ && isConstInt(0)(cm.Y) {
 						empty = true
 					}
+					if cm.Op == token.EQL && isConstInt(0)(cm.Y) {
+						if lc, isL := core.Unwrap(p.Resolve(cm.X)).(*ssa.Call); isL && isBuiltin(lc, "len") {
+							empty = true
+						}
+					}
 					if cm.Op == token.EQL && (cm.X == ssa.Value(f.Params[2]) || cm.Y == ssa.Value(f.Params[2])) {
 						other := cm.Y
 						if cm.Y == ssa.Value(f.Params[2]) {
@@ -1451,6 +1456,14 @@ func failureReturned(f *ssa.Function, s core.Site) bool {
 		ret, ok := in.(*ssa.Return)
 		if !ok {
 			continue
+		}
+		// the call's error handed on as it is (`return f(x)`)
+		if e := core.ErrOf(v); e != nil && len(ret.Results) > 0 {
+			for _, rv := range core.RetVals(ret, len(ret.Results)-1) {
+				if e(rv) {
+					return true
+				}
+			}
 		}
 		if !core.NilFact(ret.Block(), core.ErrOf(v), false) {
 			continue
